@@ -314,7 +314,14 @@ RULE_TEXT = {
 }
 
 
+SELFTEST = {
+    "C04": ["BUG_StoreBeforeVerify"], "C05": ["BUG_SerialPlus2", "BUG_NoSlotUpdate"], "C06": ["BUG_FilterGT", "BUG_CatchupLE"],
+    "C07": ["BUG_ReplyBeforeStore"], "C08": ["BUG_CloseCbq"], "C09": ["BUG_SrcErrSuppress"],
+}
+
+
 def run_check(pid, tier, replay=None):
+    from . import mc, conform
     t0 = time.time()
     scratch = C.Scratch(pid)
     try:
@@ -323,33 +330,48 @@ def run_check(pid, tier, replay=None):
             return run_replay(pid, vh, scratch, replay)
         seed = C.seed()
         rng = random.Random(seed * 7919 + int(pid[1:]))
-        n_gated, n_free = (160, 40) if tier == "quick" else (3000, 600)
-        scenarios = [gen_scenario(rng, pid, i, "random") for i in range(n_gated)]
-        scenarios += [gen_scenario(rng, pid, i, "free") for i in range(n_free)]
-        for s in scenarios:
-            if s["mode"] == "free":
-                s["oracle"] = False
+        quick = tier == "quick"
+        # 1. the specification: exhaustive model checking of the family's bounded configuration
+        mcres = mc.model_check(scratch, pid, tier, timeout=2400)
+        if not mcres.ok:
+            raise C.Inconclusive("Dials.tla does not satisfy its own properties in the %s/%s configuration (%s): specification alarm, "
+                                 "not a verdict about the code\n%s" % (pid, tier, mcres.violated, mcres.out[-1500:]))
+        selftest = {}
+        if not quick:
+            for tog in SELFTEST[pid]:
+                fam = "C06" if tog == "BUG_UnregCap" else pid
+                r = mc.model_check(scratch, fam, "quick", toggles=(tog,), tag="tog" + tog)
+                selftest[tog] = r.violated
+                if not r.violated:
+                    raise C.Inconclusive("self-test: toggle %s no longer violates anything (vacuous model?)" % tog)
+        # 2. spec -> code: TLC-generated behaviours replayed through the gate scheduler
+        n_plan, n_gated, n_free = (60, 120, 40) if quick else (1500, 2500, 600)
+        behaviours, consts, simres = mc.simulate(scratch, pid, "thorough", n_plan, 90 if quick else 140, seed)
+        scenarios = [mc.scenario_from_behaviour(b, consts, "%s-p-%d" % (pid, i)) for i, b in enumerate(behaviours)]
+        # 3. seeded random programs and schedules, and free-running stress
+        scenarios += [gen_scenario(rng, pid, i, "random") for i in range(n_gated)]
+        free = [gen_scenario(rng, pid, i, "free") for i in range(n_free)]
+        for s in free:
+            s["oracle"] = False
+        scenarios += free
         events, crashes = run_scenarios(vh, scratch, scenarios, workers=12)
-        violations, breaches_all = [], []
+        violations = []
         for sc, stderr in crashes:
             rp = C.write_replay(pid, sc, replay_obj(pid, sc, events, [{"p": "C08_Panic"}], note=stderr))
             if pid == "C08":
-                violations.append(("process crashed in scenario %s: %s" % (sc, stderr.strip().splitlines()[0] if stderr.strip() else ""), rp))
-        # the observer, batched
+                first = stderr.strip().splitlines()[0] if stderr.strip() else ""
+                violations.append(("process crashed in scenario %s: %s" % (sc, first), rp))
+        # 4. code -> spec (a): the observer evaluates the properties on every recorded history
         viol = []
-        tlc_states = tlc_trans = 0
-        B = 60000
-        start = 0
-        # cut batches at scenario boundaries
+        obs_states = 0
         idx = [i for i, e in enumerate(events) if e.get("ev") == "begin"] + [len(events)]
         batch, nb = [], 0
         for a, b in zip(idx, idx[1:]):
             batch.extend(events[a:b])
-            if len(batch) >= B or b == len(events):
+            if len(batch) >= 60000 or b == len(events):
                 v, res = observe(scratch, batch, "obs%d" % nb)
                 viol.extend(v)
-                tlc_states += res.distinct
-                tlc_trans += res.generated
+                obs_states += res.distinct
                 batch, nb = [], nb + 1
         mine = [v for v in viol if v["p"].startswith(TAGS[pid])]
         others = sorted({v["p"] for v in viol if not v["p"].startswith(TAGS[pid])})
@@ -359,23 +381,46 @@ def run_check(pid, tier, replay=None):
         for sc, vs in sorted(by_sc.items()):
             rp = C.write_replay(pid, sc, replay_obj(pid, sc, events, vs))
             violations.append(("%s in scenario %s at event %s" % (",".join(sorted({v["p"] for v in vs})), sc, min(v["seq"] for v in vs)), rp))
+        # 5. code -> spec (b): strict conformance of gated executions with Dials.tla
+        by = {}
+        for e in events:
+            by.setdefault(e.get("sc"), []).append(e)
+        gated = [s for s in scenarios if s["mode"] != "free" and s["id"] in by and s["id"] not in {c[0] for c in crashes}]
+        n_conf = 80 if quick else 1200
+        step = max(1, len(gated) // n_conf)
+        chosen = gated[::step][:n_conf]
+        conf = conform.validate(scratch, [(s, by[s["id"]]) for s in chosen], workers=14)
+        status = {}
+        for r in conf:
+            status[r["status"]] = status.get(r["status"], 0) + 1
+        diverged = [r for r in conf if r["status"] == "diverged"]
+        plan_skips = sum(e.get("skipped", 0) for e in events if e.get("ev") == "final" and "-p-" in e.get("sc", ""))
         cov = counts(events)
-        sample_sc = scenarios[0]["id"]
-        sample = [{k: v for k, v in e.items() if k not in ("scenario", "detail")} for e in events if e.get("sc") == sample_sc][:40]
+        sample = [{k: v for k, v in e.items() if k not in ("scenario", "detail")} for e in by.get(scenarios[0]["id"], [])][:40]
         coverage = {
-            "states": max(tlc_states, 1), "transitions": max(tlc_trans, 1),
+            "states": mcres.distinct, "transitions": mcres.generated,
             "traces_validated_against_impl": cov["scenarios"],
-            "samples": [{"scenario": scenarios[0], "first_events": sample}],
+            "samples": [{"scenario": {k: v for k, v in scenarios[0].items() if k != "spec_actions"}, "first_events": sample}],
             "evaluations": cov["scenarios"], "distinct_nontrivial": nontrivial(events, pid),
-            "rule": "seeded random scenarios (programs for reporters/clients/readers) executed against the real library under the gate "
-                    "scheduler with seeded random schedules, plus free-running stress; " + RULE_TEXT[pid] +
-                    "; distinct = different (scenario, schedule) pairs",
-            "measured": cov, "other_property_tags_seen": others, "crashes": len(crashes),
-            "checker_cmd": "tlc -workers 1 -config DialsObs.cfg DialsObs.tla (observer over recorded histories)",
+            "rule": "TLC -simulate behaviours of Dials.tla replayed through the gate scheduler, seeded random programs with seeded random "
+                    "schedules, and free-running stress, all against the real library; " + RULE_TEXT[pid] +
+                    "; distinct = different (scenario, executed schedule) pairs",
+            "model": {"config": mc.consts_for(pid, tier), "distinct_states": mcres.distinct, "generated_states": mcres.generated,
+                      "depth": mcres.depth, "invariants": mc.INVARIANTS, "action_properties": mc.ACTION_PROPS, "wall_s": round(mcres.wall, 1)},
+            "toggle_selftest": selftest,
+            "spec_behaviours_replayed": len(behaviours), "plan_steps_not_enabled_in_code": plan_skips,
+            "observer": {"events": len(events), "tlc_states": obs_states, "breaches_total": len(viol), "other_property_tags_seen": others},
+            "strict_conformance": {"traces": len(conf), "by_status": status,
+                                   "divergences": [{k: v for k, v in r.items() if k != "tlc_tail"} for r in diverged[:5]]},
+            "measured": cov, "crashes": len(crashes),
+            "checker_cmd": "tlc MCDials (exhaustive) ; tlc -simulate MCDials (plans) ; tlc DialsObs (observer) ; tlc MCTrace (DialsTrace, one run per trace)",
         }
         C.write_evidence(pid, tier, "model_checking", coverage, time.time() - t0, len(violations),
-                         ["the observer's event schema matches the hooks (DESIGN.md 5.5)",
-                          "free-running traces are judged only by order-insensitive rules"])
+                         ["the hooks (build tag verif) sit at the linearization points named in DESIGN.md 5.1",
+                          "free-running traces are judged only by order-insensitive rules",
+                          "a strict-conformance divergence alone is reported, not a violation (DESIGN.md 6)"])
+        for r in diverged[:3]:
+            print("DIVERGENCE scenario=%s at step %s: %s" % (r["sc"], r.get("depth"), json.dumps(r.get("first_unmatched"))))
         return C.finish(pid, violations)
     finally:
         scratch.cleanup()
